@@ -408,7 +408,7 @@ fn explore_from(which: Which, sc: &Scenario, cfg: &Arc<W3Cfg>, run: &mut W3Run, 
 
 fn critical(sc: &Scenario) -> bool {
     // adjacent addresses / wrap-around / HSA-1 with the slow poll grid, no late joiners
-    sc.late.is_empty() && sc.divs == vec![4] && sc.baud == 1 && sc.slot_bits >= 300 && matches!(sc.loads[0], Load::None)
+    sc.late.is_empty() && sc.divs == vec![4] && sc.baud == 1 && sc.slot_bits >= 300 && sc.slot_bits % 100 == 0 && sc.origin == 0 && sc.repoll == 0 && sc.endurance <= 1 && matches!(sc.loads[0], Load::None)
 }
 
 pub fn run_ring(which: Which, tier: Tier) -> ! {
@@ -426,7 +426,7 @@ pub fn run_ring(which: Which, tier: Tier) -> ! {
         let k = match tier {
             Tier::Quick => 0,
             Tier::Thorough => {
-                if sc.late.is_empty() && sc.addrs.len() <= 3 && sc.baud == 1 && sc.gap == 1 && sc.hsa == 6 && (sc.phases == vec![0, 1, 2] || sc.phases == vec![0]) && matches!(sc.loads[0], Load::None) && sc.loads.len() == 1 && sc.ttr.is_none() && sc.divs != vec![16] && sc.divs != vec![8] {
+                if sc.late.is_empty() && sc.addrs.len() <= 3 && sc.baud == 1 && sc.gap == 1 && sc.hsa == 6 && (sc.phases == vec![0, 1, 2] || sc.phases == vec![0]) && matches!(sc.loads[0], Load::None) && sc.loads.len() == 1 && sc.ttr.is_none() && sc.divs != vec![16] && sc.divs != vec![8] && sc.divs.iter().all(|d| *d <= 16) && sc.slot_bits % 100 == 0 && sc.origin == 0 && sc.repoll == 0 && sc.endurance <= 1 {
                     1
                 } else {
                     0
